@@ -62,7 +62,8 @@ def BOUNDS(tier):
     return [
         "prod: 1..4 binary factors; abssum: 1..4 free reals, coefficients 1, "
         "cn_pce_penalty, and symbolic non-negative",
-        "enum: n=2 binaries" + (" and n=3" if tier == "thorough" else "")
+        "enum: n=2 binaries" + (" and n=3 (gap 0 complete; gap 0.1 for first optima with "
+                                "<= 1 set bit)" if tier == "thorough" else "")
         + ", gap in {0, 0.1, 0.5} and symbolic gap in [0,1] for n=2, limit in {None,1,2}",
         "teegen: models aldy builds for planted/perturbed samples of GA, GB, GC (major, "
         "minor, structure; gap 0 and 0.3)",
@@ -92,8 +93,11 @@ def configs(tier):
     for g in ("GA", "GB", "GC"):
         c.append({"kind": "teegen", "gene": g, "pairs": 30 if tier == "quick" else 200})
     if tier == "thorough":
-        for gap in ("0", "0.1", "0.5"):
-            for first in range(8):
+        # n = 3: the path space grows with the number of within-gap yields; gap 0 is
+        # explored completely (partitioned by the first optimum), gap 0.1 only for first
+        # optima with <= 1 set bit (the other partitions did not finish in 25 min)
+        for gap, firsts in (("0", range(8)), ("0.1", (0, 1, 2, 4))):
+            for first in firsts:
                 c.append({"kind": "enum", "n": 3, "gap": gap, "limit": None,
                           "first": first})
         # CYP2D6-sized models: one configuration per test function, bounded time; what
